@@ -1465,7 +1465,7 @@ End FlexTrees.
    instance's numeric `eqb` (they differ on NaN and on the sign of zero only: a NaN key never hits here); the runner is over binary32, the
    theorems over XQ; `compute_root_layout` (Model/TaffyRoot.v taffy_compute_root) is not composed in (the Examples hand the root `root_fin`);
    the insensitivity premise of the `_partial` theorems still mentions `bf_memo_t (Fin k)`, a function the implementation does not compute. *)
-From TV Require Model.TaffyEngine Model.TaffyRoot Model.BlockFlexTaffy Model.BlockFlexExample2 Proofs.EngineMap Proofs.BlockFlexTaffy.
+From TV Require Model.TaffyEngine Model.TaffyRoot Model.BlockFlexTaffy Model.BlockFlexExample2 Proofs.EngineMap Proofs.BlockFlexTaffy Proofs.BlockFlexTaffyClass.
 Module FlexTreesK.
   Import TV.Model.Common TV.Model.Leaf TV.Model.Scale TV.Model.FlexAlgBase TV.Model.FlexAlgRel.
   Import TV.Model.Engine TV.Model.EngineRel.
@@ -1496,17 +1496,17 @@ Module FlexTreesK.
   Print Assumptions C04_blockflex_engine_is_taffy_engine.
 
   (* C04_blockflex_engine_scaled_layouts_partial about the K-run engine: fresh trees of the complete engine that are embeddings of grid-free
-     block + flex trees *)
+     block + flex trees (the scaled tree is grid-free because the relation keeps `display`: Proofs/BlockFlexTaffyClass.v) *)
   Theorem C04_taffy_engine_scaled_layouts_partial : forall k, 0 < k ->
     forall f (t t' : sk (BFNode XQ)) i o T1,
-      sk_goodb t = true -> sk_goodb t' = true ->
+      sk_goodb t = true ->
       skrel (BFNode XQ) (bfnode_rel k) t t' ->
       bf_memo_t (Fin k) f (bfk_fresh t') (fin_scale k i) = bf_memo f (bfk_fresh t') (fin_scale k i) ->
       real_memo Num.eqb f (taffy_fresh (sk_map bfn_emb t)) i = Some (o, T1) ->
       exists o' T1',
         real_memo Num.eqb f (taffy_fresh (sk_map bfn_emb t')) (fin_scale k i) = Some (o', T1') /\ output_rel k o o' /\
         Forall2 (flay_rel k) (lays (TStyle XQ) (FIn XQ) (LayoutOutput XQ) (FLay XQ) T1) (lays (TStyle XQ) (FIn XQ) (LayoutOutput XQ) (FLay XQ) T1').
-  Proof. exact real_engine_scaled_layouts. Qed.
+  Proof. exact BlockFlexTaffyClass.real_engine_scaled_layouts'. Qed.
   Print Assumptions C04_taffy_engine_scaled_layouts_partial.
 
   (* non-vacuity: the example trees of `FlexTrees` are in the class (10 nodes: block root, leaf, flex row, flex column, hidden and absolute
